@@ -83,6 +83,8 @@ def to_coq(c):
             cb(r["name"]), cbl(r["files"]), cbl(r["select"]), cbl(r["ignore"]))
         return "CFileSet %s %s %s %s %d %s %s" % (
             cb("src"), tree, cb(c["p"]), rule, ERR.get(c.get("err", ""), 9), cb(c["out"]), cbl(c.get("outs")))
+    if op == "buildkey":
+        return None
     if op == "build":
         if c.get("err"):
             return None
@@ -213,6 +215,26 @@ def oracle_fileset(c):
     return None
 
 
+def outside_mechanism(c, n):
+    """How a name that physically lies outside the source tree got listed: 'explicit' (named in Files),
+    'glob' (a glob selection went through the link), 'walk-root' (the directory of a recursive selection
+    itself passes the link) or 'walk-descended' (a recursive listing descended a link: never on the
+    modelled code)."""
+    r, p = c["rule"], c["p"]
+    links = set(e["p"] for e in c["tree"] if kind(e) in ("lf", "ld", "lb"))
+    if n in set(resolve_any(p, f) for f in r["files"]):
+        return "explicit"
+    for sel in r["select"]:
+        if sel == "**" or sel.endswith("/**"):
+            root = "/".join(py_clean_segs(p)) if sel == "**" else resolve_rel(p, sel[:-3])
+            if beneath(n, root) or n == root:
+                parts = root.split("/") if root else []
+                if any("/".join(parts[:i + 1]) in links for i in range(len(parts))):
+                    return "walk-root"
+                return "walk-descended"
+    return "glob"
+
+
 def file_ok(name):
     return name not in SKIP_FILES and not name.endswith(".caco3")
 
@@ -222,9 +244,10 @@ def impl_oracle(c):
         return ("impl:crash", "panic: %s" % c["crash"][:200])
     op = c["op"]
     if op in ("fileset", "build") and c.get("outside"):
-        return ("impl:symlink:listed-through-linked-dir",
-                "file set lists %r, which physically lie outside the source tree (reached through a "
-                "symbolic link to a directory)" % c["outside"][:4])
+        how = sorted(set(outside_mechanism(c, n) for n in c["outside"]))
+        return ("impl:symlink:outside:" + "+".join(how),
+                "file set lists %r, which physically lie outside the source tree: reached through a symbolic "
+                "link to a directory (%s)" % (c["outside"][:4], ", ".join(how)))
     if op in ("rel", "abs"):
         out = c["out"]
         if not segs_clean(out) or out.startswith("/"):
@@ -246,6 +269,19 @@ def impl_oracle(c):
         for o in [c["out"]] + (c.get("deps") or []) + (c.get("outs") or []):
             if not segs_clean(o) or o.startswith("/"):
                 return ("impl:rule:unclean", "rule %s resolved a name to %r" % (c["kind"], o))
+    if op == "buildkey":
+        bad = [p for p in c.get("changed") or [] if not (p == "deep/ws/out" or p.startswith("deep/ws/out/"))]
+        if bad:
+            return ("impl:build:outside-out", "a build changed %r, outside the workspace's output tree" % bad[:4])
+        if c.get("loaded") and c.get("pkgoutside"):
+            return ("impl:build:package-outside-src",
+                    "repo-map key %r: the build file and sources of the package were read from outside the "
+                    "workspace's source tree (file set lists %r)" % (c["p"], (c.get("outs") or [])[:3]))
+        if c.get("loaded"):
+            for o in [c["out"]] + (c.get("outs") or []):
+                if not segs_clean(o):
+                    return ("impl:build:unclean", "built file set lists %r" % o)
+        return None
     if op == "build":
         bad = [p for p in c.get("changed") or [] if not (p == "ws/out" or p.startswith("ws/out/"))]
         if bad:
